@@ -1,58 +1,51 @@
-import FstVerif.Model.Ops
+import FstVerif.Proofs.Ops
 /-
-C05 — set operations. (The four operation theorems for every admissible
-tie-break are assembled from Proofs/Ops.lean; here: facts about the driver's
-`popMin` and the empty cases.)
+C05 — set operations equal their mathematical definitions, for every
+admissible tie-break of the heap (`PopSpec`: `BinaryHeap::pop` returns *a*
+minimal slot). Statements here; proofs in Proofs/Ops.lean. The specification
+side (`allKeys`, `occ`, `HasKey`) is defined from membership, not from merging.
 -/
-namespace Fst
+namespace Fst.Props
+open Fst Fst.Ops
 
-/-- `popMin` fails exactly on the empty heap -/
-theorem C05_popMin_none (h : List Slot) : popMin h = none ↔ h = [] := by
-  cases h with
-  | nil => simp [popMin]
-  | cons s rest =>
-    simp only [popMin]
-    cases popMin rest with
-    | none => simp
-    | some p => obtain ⟨m, r⟩ := p; simp only []; split <;> simp
+/-- the tie-break the driver uses is admissible -/
+theorem C05_popMin : PopSpec popMin := Fst.C05_popMin
 
-/-- `popMin` returns an element of the heap and keeps the number of the others -/
-theorem C05_popMin_length : ∀ (h : List Slot) (s : Slot) (rest : List Slot),
-    popMin h = some (s, rest) → rest.length + 1 = h.length ∧ s ∈ h := by
-  intro h
-  induction h with
-  | nil => intro s rest hp; simp [popMin] at hp
-  | cons x xs ih =>
-    intro s rest hp
-    simp only [popMin] at hp
-    cases hx : popMin xs with
-    | none =>
-      rw [hx] at hp
-      simp only [Option.some.injEq, Prod.mk.injEq] at hp
-      obtain ⟨rfl, rfl⟩ := hp
-      have : xs = [] := (C05_popMin_none xs).mp hx
-      subst this; simp
-    | some p =>
-      obtain ⟨m, r⟩ := p
-      rw [hx] at hp
-      obtain ⟨hl, hm⟩ := ih m r hx
-      simp only [] at hp
-      split at hp
-      · simp only [Option.some.injEq, Prod.mk.injEq] at hp
-        obtain ⟨rfl, rfl⟩ := hp
-        exact ⟨by simp; omega, by simp [hm]⟩
-      · simp only [Option.some.injEq, Prod.mk.injEq] at hp
-        obtain ⟨rfl, rfl⟩ := hp
-        exact ⟨rfl, by simp⟩
+/-- union: every key present in at least one stream, once, ascending; each with
+exactly one (stream index, value) entry per stream containing it -/
+theorem C05_union (pop : PopFn) (hp : PopSpec pop) (streams : List KV) (hs : ∀ l ∈ streams, SortedKV l) :
+    ∃ out, opCollect pop .union streams = some out ∧ out.map (·.1) = allKeys streams ∧
+      ∀ k outs, (k, outs) ∈ out → outs.Perm (occ streams k) := Fst.C05_union pop hp streams hs
 
-/-- no streams: every operation over zero streams except `difference` (which
-needs a first stream) is empty -/
-theorem C05_no_streams :
-    opCollect popMin .union [] = some [] ∧ opCollect popMin .intersection [] = some [] ∧
-    opCollect popMin .symmetricDifference [] = some [] ∧ opCollect popMin .difference [] = none := by
-  decide
+/-- intersection: the keys present in all streams -/
+theorem C05_inter (pop : PopFn) (hp : PopSpec pop) (streams : List KV) (hs : ∀ l ∈ streams, SortedKV l) :
+    ∃ out, opCollect pop .intersection streams = some out ∧
+      out.map (·.1) = (allKeys streams).filter (fun k => decide ((occ streams k).length = streams.length)) ∧
+      ∀ k outs, (k, outs) ∈ out → outs.Perm (occ streams k) := Fst.C05_inter pop hp streams hs
 
-example : opCollect popMin .union [[([1], 5)], [([1], 7), ([2], 0)]] =
-    some [([1], [⟨0, 5⟩, ⟨1, 7⟩]), ([2], [⟨1, 0⟩])] := by decide
+/-- symmetric difference: the keys present in an odd number of streams -/
+theorem C05_symdiff (pop : PopFn) (hp : PopSpec pop) (streams : List KV) (hs : ∀ l ∈ streams, SortedKV l) :
+    ∃ out, opCollect pop .symmetricDifference streams = some out ∧
+      out.map (·.1) = (allKeys streams).filter (fun k => decide ((occ streams k).length % 2 = 1)) ∧
+      ∀ k outs, (k, outs) ∈ out → outs.Perm (occ streams k) := Fst.C05_symdiff pop hp streams hs
 
-end Fst
+/-- difference: the entries of the first stream whose key is in no other stream, with the first stream's value only -/
+theorem C05_diff (pop : PopFn) (hp : PopSpec pop) (streams : List KV) (hne : streams ≠ [])
+    (hs : ∀ l ∈ streams, SortedKV l) :
+    opCollect pop .difference streams =
+      some (((streams.head hne).filter (fun kv => !hasKeyB streams.tail kv.1)).map
+        (fun kv => (kv.1, [⟨0, kv.2⟩]))) := Fst.C05_diff pop hp streams hne hs
+
+theorem C05_disjoint (pop : PopFn) (hp : PopSpec pop) (a b : KV) (ha : SortedKV a) (hb : SortedKV b) :
+    isDisjoint pop a b = true ↔ ∀ k, ¬ (KeyOf a k ∧ KeyOf b k) := Fst.C05_disjoint pop hp a b ha hb
+theorem C05_subset (pop : PopFn) (hp : PopSpec pop) (a b : KV) (ha : SortedKV a) (hb : SortedKV b) :
+    isSubset pop a b = true ↔ ∀ k, KeyOf a k → KeyOf b k := Fst.C05_subset pop hp a b ha hb
+theorem C05_superset (pop : PopFn) (hp : PopSpec pop) (a b : KV) (ha : SortedKV a) (hb : SortedKV b) :
+    isSuperset pop a b = true ↔ ∀ k, KeyOf b k → KeyOf a k := Fst.C05_superset pop hp a b ha hb
+
+/-- the specification side: `allKeys` is the unique ascending list of the keys present somewhere -/
+theorem C05_allKeys_spec (streams : List KV) :
+    SortedK (allKeys streams) ∧ ∀ k, k ∈ allKeys streams ↔ HasKey streams k :=
+  ⟨sorted_allKeys streams, fun k => mem_allKeys streams k⟩
+
+end Fst.Props
